@@ -730,7 +730,27 @@ def data_emission(F, R, rule, fnlabel, b, subject="item"):
                     g = f
                 elif (f[0] == "in" and "Empty" not in f[2]) or (f[0] == "notin" and "Empty" in f[2]):
                     narrow = f
+        # ... and by nothing else about that vertex: a second condition on it (its edges, a helper's verdict on it) hides the data
+        # of some vertices that have data
+        extra = []
         if g is not None:
+            vk = strip_sites(vtx)
+            for f in e.facts:
+                if f is g or "Level" in repr(f) or is_iter_protocol_fact(f) or is_try_continue(f):
+                    continue
+                if f[0] in ("in", "notin") and (is_pers_discr_of(f[1], vtx) or is_tag_of(f[1])):
+                    continue
+                if f[0] == "cmp" and (is_tag_of(f[2]) or is_tag_of(f[3])):
+                    continue
+                if mentions(f, lambda x: strip_sites(x) == vk) and \
+                        mentions(f, lambda x: (x[0] == "field" and x[2] in ("Vertex::edges", "Vertex::data")) or
+                                 (x[0] == "call" and not x[1].startswith(("core::", "std::", "alloc::", "<")) and "Level" not in x[1])):
+                    extra.append(f)
+        if g is not None and extra:
+            R.bad(rule, "%s/%s/data-guard-too-narrow" % (rule, fnlabel), e.where(),
+                  "data is printed only for some of the vertices that have data: besides `persistence != Empty` the entry depends on %s"
+                  % "; ".join(show(f, e.body)[:100] for f in extra[:3]))
+        elif g is not None:
             R.ok(rule, e.where(), "%s prints the data of exactly the vertices that have data (persistence ∉ {Empty})" % fnlabel)
         elif narrow is not None:
             R.bad(rule, "%s/%s/data-guard-too-narrow" % (rule, fnlabel), e.where(),
